@@ -32,6 +32,10 @@ func operandLayouts(c *core.Ctx) []string {
 	if c.Prop == "C16" {
 		return []string{"C", "F", "Fconv", "FT", "FS", "FSS"}
 	}
+	if c.Prop == "C08" {
+		// reductions also meet a lazily transposed stepped view (whose storage window has gaps that a whole-tensor fold must skip)
+		return []string{"C", "T", "S", "SS", "MS", "F", "TS"}
+	}
 	return []string{"C", "T", "S", "SS", "MS", "F"}
 }
 
